@@ -167,6 +167,11 @@ def run_corr(ctx, rep, profiles, fields, oracle=None, classify=None, timeout_ms=
         if derive:
             lines = lines + derive(lines)
         model = corr.run_model(ctx.sc, driver, tables, lines)
+        # cases the model cannot evaluate within its per-case time limit (its fuel bounds depth, not work) are left out
+        slow = {cid for cid, o in model.items() if o.get("out") == "model-timeout"}
+        if slow:
+            dist["model_time_limit (skipped)"] += len(slow)
+            lines = [l for l in lines if corr.case_id(l) not in slow]
         diverging = {cid for cid, o in model.items() if o.get("out") in corr.NONTERM}
         fast = [l for l in lines if corr.case_id(l) not in diverging]
         slow = [l for l in lines if corr.case_id(l) in diverging]
@@ -198,6 +203,10 @@ def run_corr(ctx, rep, profiles, fields, oracle=None, classify=None, timeout_ms=
             ref = corr.run_model(ctx.sc, driver, tables, inscope, extra=spec_flag, tag="ref")
             rep.spec_live = ref
             dist["compared_with_Ref"] += len(inscope)
+            slow_ref = {cid for cid, o in ref.items() if o.get("out") == "model-timeout"}
+            if slow_ref:
+                dist["specification_time_limit (skipped)"] += len(slow_ref)
+                inscope = [l for l in inscope if corr.case_id(l) not in slow_ref]
             if ref_skip:
                 keep = [l for l in inscope if not ref_skip(l, impl.get(corr.case_id(l), {}), ref.get(corr.case_id(l), {}))]
                 dist["outside_the_specification (skipped)"] += len(inscope) - len(keep)
